@@ -13,7 +13,9 @@ From MZ.lib Require Import Arr Mach.
 From MZ.gen Require GenTables.
 From MZ.spec Require DeflateSpec.
 From MZ.model Require Import InflateCore.
-From MZ.proofs Require Import DeflateFlags StoredSpec InflateStored.
+From Coq Require Import ZArith Bool.
+From MZ.spec Require Adler Zlib.
+From MZ.proofs Require Import DeflateFlags StoredSpec InflateStored InflateStoredZ InflateStoredChunks InflateStoredTotal.
 Import ListNotations.
 Local Open Scope N_scope.
 
@@ -44,3 +46,41 @@ Example C03_stored_stream_decodes :
   | _ => False
   end.
 Proof. vm_compute. split; reflexivity. Qed.
+
+(* ... the same for zlib framing with the right trailer, and for both formats when the stream arrives in
+   arbitrary slices and the output is granted in arbitrary budgets (flat buffer large enough for the
+   payload; the caller keeps calling while the decoder asks for more): the loop returns, and when every byte of
+   the stream has been offered the result is HasMoreOutput (keep calling) or Done with exactly the payload *)
+Theorem C03_stored_block_streams_decode_under_every_schedule_partial :
+  forall flags zl cmf flg chunks last sched o,
+  has flags F_ZLIB = zl -> has flags F_STOPBB = false -> has flags F_NONWRAP = true -> has flags F_MORE = true ->
+  cmf < 256 -> flg < 256 -> Zlib.valid_header (Z.of_N cmf) (Z.of_N flg) = true ->
+  chunks_ok chunks -> bytes_ok last -> N.of_nat (length last) <= 65535 ->
+  let data := concat chunks ++ last in
+  let stream := (if zl then [cmf; flg] else []) ++ stored_stream chunks last ++
+                (if zl then be32 (Adler.adler32 1 data) else []) in
+  concat (map fst sched) = stream ->
+  alen o <= USIZE_MAX -> N.of_nat (length stream) < 2 ^ 57 ->
+  exists s total o' p',
+  feed2 flags dec_default o 0 [] sched 0 NeedsMoreInput = Ret (s, total, o', p') /\
+  p' <= N.of_nat (length data) /\ aget_list o' 0 p' = firstn (N.to_nat p') data /\
+  (s = HasMoreOutput \/ (s = Done /\ p' = N.of_nat (length data) /\ total = N.of_nat (length stream))).
+Proof.
+  intros flags zl cmf flg chunks last sched o HZ HSB HNW HM Hc Hf Hv Hck Hb Hl data stream Hcat Hrep Hsh.
+  rewrite <- Hcat in Hsh.
+  destruct zl.
+  - destruct (schedule_zlib_stored_stream flags cmf flg (Adler.adler32 1 data) chunks last [] sched [] o HZ HSB HNW HM Hc Hf Hv
+                (Adler.adler32_lt _ _ Adler.adler_valid_1) Hck Hb Hl
+                ltac:(rewrite Hcat; unfold stream; cbn [app]; rewrite <- !app_assoc, !app_nil_r; reflexivity) Hrep Hsh)
+      as (s & t & o' & p' & H & H1 & H2 & H3 & H4).
+    exists s, t, o', p'. split; [exact H|]. split; [exact H1|]. split; [exact H2|].
+    destruct H4 as [H4|[[_ H4]|(H4 & H5 & H6)]]; [left; exact H4|contradiction|right].
+    fold data in H4. rewrite N.eqb_refl, orb_true_r in H4. split; [exact H4|]. split; [exact H5|].
+    rewrite H6. reflexivity.
+  - destruct (schedule_raw_stored_stream flags chunks last [] sched [] o HZ HSB HNW HM Hck Hb Hl
+                ltac:(rewrite Hcat; unfold stream; cbn [app]; rewrite !app_nil_r; reflexivity) Hrep Hsh)
+      as (s & t & o' & p' & H & H1 & H2 & H3 & H4).
+    exists s, t, o', p'. split; [exact H|]. split; [exact H1|]. split; [exact H2|].
+    destruct H4 as [H4|[[_ H4]|(H4 & H5 & H6)]]; [left; exact H4|contradiction|right].
+    split; [exact H4|]. split; [exact H5|]. rewrite H6. unfold stream. cbn [app]. rewrite app_nil_r. reflexivity.
+Qed.
